@@ -65,6 +65,18 @@ func scenarios(c *vlib.Ctx) []*slib.Scn {
 	for _, v := range []string{"run", "start", "signal"} {
 		add(modules.C15Params{Limit: 2, Tasks: []string{"h-" + v + "-ok", "m-run-ok", "m-start-ok", "l-signal-ok"}}, bound)
 	}
+	// the module is stopped while microtasks are running: the stop completes as soon as they finished
+	for _, ts := range [][]string{{"m-run-ok"}, {"m-signal-ok"}, {"l-start-ok"}, {"h-run-ok"}, {"m-run-ok", "l-run-ok"}, {"m-start-ok", "m-signal-ok", "l-run-ok"}} {
+		add(modules.C15Params{Limit: 2, Tasks: ts, StopDuring: true}, bound)
+	}
+	// maximum delays expire: waiting tasks start without clearance; afterwards the accounting must balance again
+	for _, ts := range [][]string{
+		{"m-run-ok", "m-run-ok", "l-run-ok", "l-run-ok"},
+		{"m-run-ok", "m-start-ok", "l-start-ok", "l-run-ok", "l-signal-ok"},
+		{"m-run-ok", "m-run-ok", "m-run-ok", "l-run-ok", "l-start-ok"},
+	} {
+		add(modules.C15Params{Limit: 2, Tasks: ts, Expiry: true}, vlib.Pick(c, 1, 2))
+	}
 	return out
 }
 
